@@ -225,4 +225,19 @@ PROPS = {
                  thorough=dict(checks=640, shards=16, budget_s=3400, shrink="3m")),
         ],
     ),
+    "C17": dict(
+        level="exploration",
+        text="Exploration by generated search over operation histories: open/dial/ping/accept/close operations of every kind (success and failure paths, double close, cancellation mid-dial, "
+             "closes racing concurrent senders or parked deliveries), repeated on the same mesh, in a crash-contained process; a model of what is open is compared with every node's listener "
+             "registry after settling, close-like calls are watch-dogged, goroutines holding receptor/QUIC frames are counted per round and after Shutdown; residues are attributed to the operation "
+             "class that produced them so that a listed finding covers only its own residue.",
+        note="Trusted: runtime.Stack for goroutine attribution; the registry accessors. Goroutine interleavings are sampled. Stream listeners get fresh names (re-listening on a just-closed stream service is a listed finding).",
+        technique="stateful property-based testing (rapid): generated operation histories against a resource model, with process-level crash containment and watchdogs",
+        assumptions=["settling deadline 40 s with the QUIC idle timeout lowered to 2 s (an exported variable)", "one executor process per scenario"],
+        parts=[
+            part("lifecycle", "netprops", "TestC17", "C17",
+                 quick=dict(checks=24, shards=8, budget_s=600),
+                 thorough=dict(checks=400, shards=16, budget_s=3400, shrink="4m")),
+        ],
+    ),
 }
